@@ -49,6 +49,19 @@ CONSTANT KeepPathType
 ASSUME KeepPathType \in BOOLEAN
 
 (***************************************************************************)
+(* Keys.  KeyRegime = "mock": USE_MOCK_KEYS=true, every host-to-host key   *)
+(* is the same all-zero key.  KeyRegime = "drkey": the host-to-host key is *)
+(* a function of (server ISD-AS, client ISD-AS, server host, client host); *)
+(* the server obtains it from a host-AS key that net/scion/fetcher.go      *)
+(* caches per client ISD-AS and revalidates on every use (epoch, protocol, *)
+(* both ISD-AS, server host).  CheckSrcHost = FALSE drops the server-host  *)
+(* comparison from the revalidation: a deliberately wrong variant          *)
+(* (ScionAuth_f_keycache.cfg) that the property section must reject.       *)
+(***************************************************************************)
+CONSTANTS KeyRegime, CheckSrcHost, MaxDatagrams
+ASSUME KeyRegime \in {"mock", "drkey"} /\ CheckSrcHost \in BOOLEAN /\ MaxDatagrams \in 1 .. 4
+
+(***************************************************************************)
 (* Deliberately wrong variants of the implementation, used by the          *)
 (* ScionAuth_f_*.cfg configurations to show that the property section      *)
 (* rejects them ("none" is the code as it is).                             *)
@@ -96,7 +109,17 @@ L4Kinds == {"udp", "echo", "tr", "scmpx", "l4x"}    \* SCION/UDP, SCMP echo requ
                                                      \* request, another SCMP message, another L4 protocol
 Ports   == {"srv", "eh", "oth", "cp", "-"}           \* server port, 30041, another port, the requester's port, none (SCMP)
 NoAuth  == [present |-> FALSE, spi |-> "-", algo |-> "-", ts |-> 0, rsv |-> 0,
-            mac |-> [key |-> "-", over |-> << >>]]
+            mac |-> [key |-> <<"-">>, over |-> << >>]]
+
+\* host-to-host keys (tuples, so that keys of both regimes compare)
+HHKey(srvIA, cliIA, srvHost, cliHost) ==
+  IF KeyRegime = "mock" THEN <<"k0">> ELSE <<srvIA, cliIA, srvHost, cliHost>>
+\* the key a datagram has to be authenticated with: a request travels client ->
+\* server (source = client), a response server -> client
+ReqKey(d)  == HHKey(d.dia, d.sia, d.dh, d.sh)
+RespKey(d) == HHKey(d.sia, d.dia, d.sh, d.dh)
+OtherOf(x) == CASE x = "S" -> "D" [] x = "D" -> "S" [] x = "C" -> "C2" [] x = "C2" -> "C"
+                [] x = "iaC" -> "iaC2" [] x = "iaC2" -> "iaC" [] OTHER -> x
 
 \* the fields the MAC is computed over (spao.serializeAuthenticatedData): header
 \* length, upper-layer type and length, algorithm, timestamp / sequence number,
@@ -122,7 +145,7 @@ MacOK(d, key) == d.auth.present /\ d.auth.mac = [key |-> key, over |-> CoveredRc
 \* sender side: scion.PreparePacketAuthOpt + spao.ComputeAuthCMAC over d
 WithAuth(d, spi, key) ==
   LET a0 == [present |-> TRUE, spi |-> spi, algo |-> "cmac", ts |-> 0, rsv |-> 0,
-             mac |-> [key |-> "-", over |-> << >>]]
+             mac |-> [key |-> <<"-">>, over |-> << >>]]
       d0 == [d EXCEPT !.auth = a0]
   IN [d0 EXCEPT !.auth.mac = [key |-> key, over |-> Covered(d0)]]
 
@@ -138,11 +161,14 @@ AuthKinds == {"absent", "valid",
               "spiFlip",     \* a bit of the SPI
               "spiOther",    \* the SPI of the other direction (MAC computed with that SPI in place)
               "algoFlip",    \* a bit of the algorithm byte
-              "wrongKey"}    \* MAC computed with another key
+              "wrongKey",    \* MAC computed with a key that is nobody's
+              "keyOtherSrv", \* MAC computed with the key of (another server host, this client)
+              "keyOtherCli", \* ... of (this server host, another client host)
+              "keyOtherIA"}  \* ... of (this server, this client host in another ISD-AS)
 
 Tamper(d, k) ==
   CASE k = "valid"     -> d
-    [] k = "macFlip"   -> [d EXCEPT !.auth.mac.key = "garbage"]
+    [] k = "macFlip"   -> [d EXCEPT !.auth.mac.key = <<"garbage">>]
     [] k = "covHdr"    -> [d EXCEPT !.hdr = "h1"]
     [] k = "covPath"   -> IF d.path.kind = "empty" THEN [d EXCEPT !.hdr = "h1"] ELSE [d EXCEPT !.ptok = "p1"]
     [] k = "covPld"    -> [d EXCEPT !.pl = IF d.pl = "ntp" THEN "ntp'" ELSE "data'"]
@@ -155,9 +181,12 @@ Tamper(d, k) ==
 \* the requester's datagram: an authenticated base packet, then tampering
 MkAuth(d, k, spi, other) ==
   CASE k = "absent"   -> d
-    [] k = "spiOther" -> WithAuth(d, other, "k0")
-    [] k = "wrongKey" -> WithAuth(d, spi, "kx")
-    [] OTHER          -> Tamper(WithAuth(d, spi, "k0"), k)
+    [] k = "spiOther" -> WithAuth(d, other, ReqKey(d))
+    [] k = "wrongKey" -> WithAuth(d, spi, <<"kx">>)
+    [] k = "keyOtherSrv" -> WithAuth(d, spi, HHKey(d.dia, d.sia, OtherOf(d.dh), d.sh))
+    [] k = "keyOtherCli" -> WithAuth(d, spi, HHKey(d.dia, d.sia, d.dh, OtherOf(d.sh)))
+    [] k = "keyOtherIA"  -> WithAuth(d, spi, HHKey(d.dia, OtherOf(d.sia), d.dh, d.sh))
+    [] OTHER          -> Tamper(WithAuth(d, spi, ReqKey(d)), k)
 
 ExpectedReq(d)  == d.auth.present /\ d.auth.spi = "client" /\ d.auth.algo = "cmac"
 ExpectedResp(d) == d.auth.present /\ d.auth.spi = "server" /\ d.auth.algo = "cmac"
@@ -178,15 +207,22 @@ VARIABLES
   out,      \* sequence (0 or 1) of datagrams the listener sent: [to, d]
   rm,       \* what the network did to the NTP reply on its way back
   resp,     \* the response as it arrives at the client
-  cres      \* "-" | "verified" | "unauth" | "reject"
+  cres,     \* "-" | "verified" | "unauth" | "reject"
+  cache,    \* fetcher.go: Fetcher.haks, the cached host-AS key per client ISD-AS
+  kinfo,    \* this datagram: was the cache asked, was its entry expired, was a key fetched, the key used
+  nsent,    \* datagrams handled so far by this listener (same goroutine, same fetcher)
+  hist      \* what happened to them (observation, for the case generator)
 
-vars == <<mode, cauth, pc, req, authd, act, out, rm, resp, cres>>
+kvars == <<cache, kinfo, nsent, hist>>
+vars == <<mode, cauth, pc, req, authd, act, out, rm, resp, cres, cache, kinfo, nsent, hist>>
 
-CONSTANTS Modes, ULs, L4s, DPorts, DHosts, Fams, PathSet, Pls, ReqAuths, RespMuts
+CONSTANTS Modes, ULs, L4s, DPorts, DHosts, Fams, PathSet, Pls, ReqAuths, RespMuts, CIAs, CHosts
 
 LocalHostPort == IF mode = "server" THEN "srv" ELSE "eh"
 Fetcher       == mode = "server"
-Key           == "k0"       \* the host-to-host key both sides derive (USE_MOCK_KEYS: all zero)
+NoEntry == [valid |-> FALSE, expired |-> FALSE, srvIA |-> "-", cliIA |-> "-", srvHost |-> "-"]
+NoKInfo == [asked |-> FALSE, exp |-> FALSE, fetch |-> FALSE, key |-> <<"-">>]
+AllCIAs == {"iaC", "iaC2"}
 
 Blank == [ul |-> "srv", l4 |-> "udp", sia |-> "iaC", dia |-> "iaS", sh |-> "C", dh |-> "S", sfam |-> 4, dfam |-> 4,
           sp |-> "cp", dp |-> "srv", path |-> EmptyPath, ptype |-> "empty", pl |-> "ntp",
@@ -197,6 +233,7 @@ Init ==
   /\ mode \in Modes /\ cauth \in BOOLEAN
   /\ pc = "l4" /\ req = Blank /\ authd = FALSE /\ act = "-" /\ out = << >>
   /\ rm = "-" /\ resp = Blank /\ cres = "-"
+  /\ cache = [ia \in AllCIAs |-> NoEntry] /\ kinfo = NoKInfo /\ nsent = 0 /\ hist = << >>
 
 \* ------------------------------------------------------------ the requester
 ChooseL4 ==
@@ -207,7 +244,7 @@ ChooseL4 ==
        /\ req' = [req EXCEPT !.ul = ul, !.l4 = k, !.pl = pl, !.pl0 = pl,
                              !.sp = IF k = "udp" THEN "cp" ELSE "-", !.dp = IF k = "udp" THEN "srv" ELSE "-"]
   /\ pc' = "port"
-  /\ UNCHANGED <<mode, cauth, authd, act, out, rm, resp, cres>>
+  /\ UNCHANGED kvars /\ UNCHANGED <<mode, cauth, authd, act, out, rm, resp, cres>>
 
 ChoosePort ==
   /\ pc = "port"
@@ -215,19 +252,20 @@ ChoosePort ==
        /\ req.l4 # "udp" => dp = "srv"
        /\ req' = [req EXCEPT !.dp = IF req.l4 = "udp" THEN dp ELSE "-", !.dh = dh]
   /\ pc' = "addr"
-  /\ UNCHANGED <<mode, cauth, authd, act, out, rm, resp, cres>>
+  /\ UNCHANGED kvars /\ UNCHANGED <<mode, cauth, authd, act, out, rm, resp, cres>>
 
 ChooseAddr ==
   /\ pc = "addr"
-  /\ \E sf \in Fams, df \in Fams : req' = [req EXCEPT !.sfam = sf, !.dfam = df]
+  /\ \E sf \in Fams, df \in Fams, ia \in CIAs, ch \in CHosts :
+       req' = [req EXCEPT !.sfam = sf, !.dfam = df, !.sia = ia, !.sh = ch]
   /\ pc' = "path"
-  /\ UNCHANGED <<mode, cauth, authd, act, out, rm, resp, cres>>
+  /\ UNCHANGED kvars /\ UNCHANGED <<mode, cauth, authd, act, out, rm, resp, cres>>
 
 ChoosePath ==
   /\ pc = "path"
   /\ \E p \in PathSet : req' = [req EXCEPT !.path = p, !.ptype = p.kind]
   /\ pc' = "auth"
-  /\ UNCHANGED <<mode, cauth, authd, act, out, rm, resp, cres>>
+  /\ UNCHANGED kvars /\ UNCHANGED <<mode, cauth, authd, act, out, rm, resp, cres>>
 
 \* the authenticator is placed last: it is computed over everything chosen so far.
 \* A client with authentication disabled sends none; SCMP carries none.
@@ -238,7 +276,7 @@ ChooseAuth ==
        /\ req.l4 # "udp" => k = "absent"
        /\ req' = [MkAuth(req, k, "client", "server") EXCEPT !.ak = k]
   /\ pc' = "sent"
-  /\ UNCHANGED <<mode, cauth, authd, act, out, rm, resp, cres>>
+  /\ UNCHANGED kvars /\ UNCHANGED <<mode, cauth, authd, act, out, rm, resp, cres>>
 
 \* ------------------------------------------------------------- the listener
 \* server_scion.go: swap of ISD-AS, address type, address; Path.Reverse();
@@ -254,7 +292,7 @@ Swapped(d) ==
 
 ReplyTo == IF Fault = "replyToSrc" THEN "src" ELSE "prev"     \* conn.WriteToUDPAddrPort(..., lastHop)
 
-Finish(a, o) == act' = a /\ out' = o /\ pc' = "done" /\ UNCHANGED <<mode, cauth, req, authd, rm, resp, cres>>
+Finish(a, o) == act' = a /\ out' = o /\ pc' = "done" /\ UNCHANGED kvars /\ UNCHANGED <<mode, cauth, req, authd, rm, resp, cres>>
 
 Drop == Finish("Drop", << >>)
 
@@ -288,22 +326,38 @@ Receive ==
      \/ req.l4 = "udp" /\ req.dp = LocalHostPort /\ LocalHostPort = "eh" /\ Drop
      \/ /\ req.l4 = "udp" /\ req.dp = LocalHostPort /\ LocalHostPort # "eh"
         /\ pc' = "verify"
-        /\ UNCHANGED <<mode, cauth, req, authd, act, out, rm, resp, cres>>
+        /\ UNCHANGED kvars /\ UNCHANGED <<mode, cauth, req, authd, act, out, rm, resp, cres>>
 
 \* fetcher != nil, an end-to-end extension with an authenticator option whose SPI
-\* and algorithm are the expected ones: compute the MAC, compare, drop on mismatch.
+\* and algorithm are the expected ones: fetch the host-AS key for (server ISD-AS =
+\* the datagram's destination, client ISD-AS = its source, server host = its
+\* destination host) -- from the cache entry of the client ISD-AS unless that is
+\* missing, expired or was fetched for other metadata --, derive the host-to-host
+\* key for the source host, compute the MAC, compare, drop on mismatch.
 \* Anything else is served unauthenticated.
+Refetch(d) ==
+  LET e == cache[d.sia]
+  IN ~e.valid \/ e.expired \/ e.srvIA # d.dia \/ e.cliIA # d.sia \/ (CheckSrcHost /\ e.srvHost # d.dh)
+EntryFor(d) == IF Refetch(d)
+               THEN [valid |-> TRUE, expired |-> FALSE, srvIA |-> d.dia, cliIA |-> d.sia, srvHost |-> d.dh]
+               ELSE cache[d.sia]
+SrvKey(d) == LET e == EntryFor(d) IN HHKey(e.srvIA, e.cliIA, e.srvHost, d.sh)
 Verify ==
   /\ pc = "verify"
   /\ IF Fetcher /\ ExpectedReq(req)
-     THEN IF MacOK(req, Key) \/ Fault = "srvIgnoreMac"
-          THEN authd' = TRUE /\ pc' = "serve" /\ UNCHANGED <<mode, cauth, req, act, out, rm, resp, cres>>
-          ELSE Drop
-     ELSE authd' = FALSE /\ pc' = "serve" /\ UNCHANGED <<mode, cauth, req, act, out, rm, resp, cres>>
+     THEN /\ cache' = [cache EXCEPT ![req.sia] = EntryFor(req)]
+          /\ kinfo' = [asked |-> TRUE, exp |-> cache[req.sia].valid /\ cache[req.sia].expired,
+                       fetch |-> Refetch(req), key |-> SrvKey(req)]
+          /\ UNCHANGED <<nsent, hist>>
+          /\ IF MacOK(req, SrvKey(req)) \/ Fault = "srvIgnoreMac"
+             THEN authd' = TRUE /\ pc' = "serve" /\ UNCHANGED <<mode, cauth, req, act, out, rm, resp, cres>>
+             ELSE act' = "Drop" /\ out' = << >> /\ pc' = "done" /\ UNCHANGED <<mode, cauth, req, authd, rm, resp, cres>>
+     ELSE authd' = FALSE /\ pc' = "serve" /\ UNCHANGED kvars /\ UNCHANGED <<mode, cauth, req, act, out, rm, resp, cres>>
 
 NtpReply ==
   LET r0 == [Swapped(req) EXCEPT !.pl = "ntpResp", !.auth = NoAuth]
-      r1 == IF Fault = "replySpiClient" THEN WithAuth(r0, "client", Key) ELSE WithAuth(r0, "server", Key)
+      \* the reply is authenticated with the key the request was verified with
+      r1 == IF Fault = "replySpiClient" THEN WithAuth(r0, "client", kinfo.key) ELSE WithAuth(r0, "server", kinfo.key)
   IN IF authd /\ Fault # "replyNoAuth"
      THEN (IF Fault = "replyMacShort" THEN [r1 EXCEPT !.auth.mac.over = << >>] ELSE r1)
      ELSE r0
@@ -313,7 +367,7 @@ ServeNtp ==
   /\ IF NtpOK(req.pl)
      THEN /\ act' = "ServeNtp" /\ out' = <<[to |-> ReplyTo, d |-> NtpReply]>>
           /\ pc' = "relay"
-          /\ UNCHANGED <<mode, cauth, req, authd, rm, resp, cres>>
+          /\ UNCHANGED kvars /\ UNCHANGED <<mode, cauth, req, authd, rm, resp, cres>>
      ELSE Drop
 
 \* -------------------------------------------------- the way back, the client
@@ -326,22 +380,44 @@ Relay ==
                     [] m = "strip" -> [out[1].d EXCEPT !.auth = NoAuth]
                     [] OTHER       -> Tamper(out[1].d, m)
   /\ pc' = "client"
-  /\ UNCHANGED <<mode, cauth, req, authd, act, out, cres>>
+  /\ UNCHANGED kvars /\ UNCHANGED <<mode, cauth, req, authd, act, out, cres>>
 
 \* client_scion.go (after validSrc / validDst: the response's SCION source and
 \* destination are the queried server and the client -- the relay never alters them):
 \* authKey != nil (authentication enabled and key fetched), the
 \* response has an authenticator option with the expected SPI and algorithm:
 \* verify, reject on mismatch.  Anything else is accepted unauthenticated.
+\* FetchHostHostKey for (remote ISD-AS, local ISD-AS, remote host, local host): the
+\* server the client queried (nothing on the way alters the addresses)
+ClientKey == ReqKey(req)
 VerifyResponse ==
   /\ pc = "client"
   /\ cres' = IF cauth /\ ExpectedResp(resp)
-             THEN (IF MacOK(resp, Key) \/ Fault = "cliIgnoreMac" THEN "verified" ELSE "reject")
+             THEN (IF MacOK(resp, ClientKey) \/ Fault = "cliIgnoreMac" THEN "verified" ELSE "reject")
              ELSE "unauth"
   /\ pc' = "done"
-  /\ UNCHANGED <<mode, cauth, req, authd, act, out, rm, resp>>
+  /\ UNCHANGED kvars /\ UNCHANGED <<mode, cauth, req, authd, act, out, rm, resp>>
+
+\* ---------------------------------------- the same listener, the next datagram
+Observation == [sia |-> req.sia, sh |-> req.sh, dh |-> req.dh, ak |-> req.ak,
+                expected |-> ExpectedReq(req), macok |-> MacOK(req, ReqKey(req)),
+                asked |-> kinfo.asked, exp |-> kinfo.exp, fetch |-> kinfo.fetch,
+                wact |-> act, wauthd |-> authd, wcres |-> cres]
+NextDatagram ==
+  /\ pc = "done" /\ nsent + 1 < MaxDatagrams
+  /\ nsent' = nsent + 1 /\ hist' = Append(hist, Observation)
+  /\ pc' = "l4" /\ req' = Blank /\ authd' = FALSE /\ act' = "-" /\ out' = << >>
+  /\ rm' = "-" /\ resp' = Blank /\ cres' = "-" /\ kinfo' = NoKInfo
+  /\ UNCHANGED <<mode, cauth, cache>>
+\* the epoch of a cached key runs out (between two datagrams)
+Expire ==
+  /\ pc = "l4" /\ nsent > 0
+  /\ \E ia \in AllCIAs : /\ cache[ia].valid /\ ~cache[ia].expired
+                          /\ cache' = [cache EXCEPT ![ia].expired = TRUE]
+  /\ UNCHANGED <<mode, cauth, pc, req, authd, act, out, rm, resp, cres, kinfo, nsent, hist>>
 
 Next ==
+  \/ NextDatagram \/ Expire
   \/ ChooseL4 \/ ChoosePort \/ ChooseAddr \/ ChoosePath \/ ChooseAuth
   \/ Receive \/ EchoReply \/ TracerouteReply \/ Forward \/ Verify \/ ServeNtp
   \/ Relay \/ VerifyResponse
@@ -389,14 +465,14 @@ FwdRule(q, to, o) ==
   /\ o.dp = q.dp /\ o.dh = q.dh
 
 Served == act = "ServeNtp"
-ReqVerifiable == ExpectedReq(req) /\ MacOK(req, Key)
+ReqVerifiable == ExpectedReq(req) /\ MacOK(req, ReqKey(req))
 
 MacSound ==
-  /\ pc \in {"relay", "client", "done"} => MacSoundReq(ExpectedReq(req), MacOK(req, Key), Served)
-  /\ cres # "-" => MacSoundResp(cauth, ExpectedResp(resp), MacOK(resp, Key), cres \in {"verified", "unauth"})
+  /\ pc \in {"relay", "client", "done"} => MacSoundReq(ExpectedReq(req), MacOK(req, ReqKey(req)), Served)
+  /\ cres # "-" => MacSoundResp(cauth, ExpectedResp(resp), MacOK(resp, RespKey(resp)), cres \in {"verified", "unauth"})
 
 AuthReplyVerifies ==
-  /\ Served => AuthReply(ReqVerifiable, ExpectedResp(out[1].d), MacOK(out[1].d, Key))
+  /\ Served => AuthReply(ReqVerifiable, ExpectedResp(out[1].d), MacOK(out[1].d, RespKey(out[1].d)))
   /\ cres # "-" => AuthReplyClient(ReqVerifiable /\ cauth, rm = "pass", cres)
 
 ReplyAddressing ==
@@ -417,7 +493,8 @@ TypeOK ==
 
 (***************************************************************************)
 (* The listener as a function (used by the case generator and by the       *)
-(* strict trace mode): what comes out for a given arriving datagram.       *)
+(* strict trace mode): what comes out for a given arriving datagram at a   *)
+(* listener whose key cache holds nothing for the datagram's source.       *)
 (***************************************************************************)
 PredictAct(m, d) ==
   LET lhp == IF m = "server" THEN "srv" ELSE "eh"
@@ -428,7 +505,7 @@ PredictAct(m, d) ==
           IF d.dp # lhp
           THEN (IF d.ul = "eh" /\ d.dp # "eh" THEN "Forward" ELSE "Drop")
           ELSE IF lhp = "eh" THEN "Drop"
-          ELSE IF m = "server" /\ ExpectedReq(d) /\ ~MacOK(d, "k0") THEN "Drop"
+          ELSE IF m = "server" /\ ExpectedReq(d) /\ ~MacOK(d, ReqKey(d)) THEN "Drop"
           ELSE IF NtpOK(d.pl) THEN "ServeNtp" ELSE "Drop"
-PredictAuthd(m, d) == m = "server" /\ ExpectedReq(d) /\ MacOK(d, "k0")
+PredictAuthd(m, d) == m = "server" /\ ExpectedReq(d) /\ MacOK(d, ReqKey(d))
 =============================================================================
